@@ -124,6 +124,30 @@ def run(ctx, deep=False):
         g, a, rh, why, got = worst
         ctx.violation("C18:search", "discovery (AirTouch %d): %s" % (g, why), kind="history", scenario=[g, fmt(a), rh],
                       implementation_output=got, spec_verdict=why)
+    # the same discoverer object used again (an application that looks for consoles once more later): every search behaves as the first one
+    # on a fresh object - same request instants, exactly the consoles that answer THIS search
+    again = []
+    for _ in range(60 if thorough else 12):
+        gen = rng.choice([4, 5])
+        again.append((gen, [scenario(gen, rng) for _ in range(rng.choice([2, 2, 3]))] + [[]], rng.choice([None, "192.168.1.5"])))
+    spec2 = ctx.oracle(["discspec %d %s" % (g, fmt(a)) for g, rounds, rh in again for a in rounds])
+    k = 0
+    for g, rounds, rh in again:
+        outs = discharness.run_searches(g, rounds, rh)
+        for i, (a, r) in enumerate(zip(rounds, outs)):
+            s_ = spec2[k]
+            k += 1
+            ctx.case(("again", g, i, json.dumps([(t, d.hex()) for t, d in a]), rh), nontrivial=i > 0)
+            got = "sent=%s ret=%d resp=[%s]" % (str(r["sent"]).replace(" ", "").replace(",", ", "), r["ret"], ",".join(sorted(show(r["responses"]))))
+            sp = re.sub(r"resp=\[(.*)\]", lambda mm: "resp=[" + ",".join(sorted(x for x in re.findall(r"R\([^)]*\)", mm.group(1)))) + "]", s_)
+            if got != sp or not r["closed"] or r["pending"]:
+                ctx.violation("C18:search-again", "discovery (AirTouch %d), search number %d on the same discoverer object behaved %s, the specification says %s%s" % (
+                    g, i + 1, got, sp, "" if r["closed"] and not r["pending"] else "; endpoint not closed / tasks left"), kind="history",
+                    scenario=[g, [fmt(x) for x in rounds], rh], implementation_output=got, spec_verdict=sp)
+                break
+        else:
+            continue
+        break
     # factory.connect(): a client for a known console - the given identity is kept, the right generation is built
     import asyncio
     import pyairtouch
